@@ -189,7 +189,18 @@ def run_property(pid, tier="quick", seed=0, jobs=None):
             extracted[e["qualname"]] = e
         for r in o["results"]:
             r["task"] = o["task"]
+            # a result cannot have taken longer than its task's wall clock (a task that reports an absolute time stamp
+            # instead of a duration would otherwise distort the solver-time sum of the evidence)
+            if r.get("seconds", 0.0) > max(1.0, o.get("wall", 0.0)) * 1.05:
+                r["seconds"] = 0.0
             results.append(r)
+        # results of one task that share a computation may each report its whole duration: the time attributed to a
+        # task's results is capped by the task's own wall clock
+        tot = sum(r.get("seconds", 0.0) for r in o["results"])
+        cap = max(0.0, o.get("wall", 0.0))
+        if tot > cap > 0:
+            for r in o["results"]:
+                r["seconds"] = r.get("seconds", 0.0) * cap / tot
         if o.get("kind") == "bounded" and not o.get("skipped"):
             standins.append({"task": o["task"], "bound": o.get("bound"), "stats": o.get("stats"),
                              "cases": sum(1 for r in o["results"]), "wall_s": round(o["wall"], 2)})
